@@ -52,17 +52,17 @@ Lemma mcells_cell_set : forall st c f, mcells (cell_set st c f) = cset (mcells s
 Proof. intros. unfold cell_set, cset. destruct (nth_error (mcells st) c); reflexivity. Qed.
 
 Definition logif (k : list frame) (c : cid) (o : obj) (l : list (cid * obj)) :=
-  if Nat.leb (length k) 1 then (c, o) :: l else l.
+  if forallb plain k then (c, o) :: l else l.
 
 Lemma thr_seq_return : forall st t th k c o,
   thr (seq_return st t th k c o) = upd (thr st) t (th_set th k (Some (Ok o))).
-Proof. intros. unfold seq_return. destruct (Nat.leb (length k) 1); reflexivity. Qed.
+Proof. intros. unfold seq_return. destruct (forallb plain k); reflexivity. Qed.
 Lemma mcells_seq_return : forall st t th k c o, mcells (seq_return st t th k c o) = mcells st.
-Proof. intros. unfold seq_return. destruct (Nat.leb (length k) 1); reflexivity. Qed.
+Proof. intros. unfold seq_return. destruct (forallb plain k); reflexivity. Qed.
 Lemma mlocks_seq_return : forall st t th k c o, mlocks (seq_return st t th k c o) = mlocks st.
-Proof. intros. unfold seq_return. destruct (Nat.leb (length k) 1); reflexivity. Qed.
+Proof. intros. unfold seq_return. destruct (forallb plain k); reflexivity. Qed.
 Lemma glog_seq_return : forall st t th k c o, glog (seq_return st t th k c o) = logif k c o (glog st).
-Proof. intros. unfold seq_return, logif. destruct (Nat.leb (length k) 1); reflexivity. Qed.
+Proof. intros. unfold seq_return, logif. destruct (forallb plain k); reflexivity. Qed.
 
 #[export] Hint Rewrite thr_acquire mcells_acquire glog_acquire mlocks_acquire
   thr_release mcells_release glog_release mlocks_release
@@ -72,9 +72,6 @@ Proof. intros. unfold seq_return, logif. destruct (Nat.leb (length k) 1); reflex
 (* ---------------------------------------------------------------------------------- *)
 (** ** frames that matter *)
 
-(** frames of the consumer, of scripts and of calls that have not taken a mutex yet *)
-Definition plain (fr : frame) : bool :=
-  match fr with KCompRet _ _ _ | KUnwrap _ _ | KUnwrapRet _ => false | _ => true end.
 Definition core (l : list frame) : list frame := filter (fun fr => negb (plain fr)) l.
 
 Definition nonlazy (o : obj) : bool := match o with OLazy _ => false | _ => true end.
